@@ -45,7 +45,7 @@ def obs_out(r):
 
 class Rec:
     def __init__(self, name):
-        self.name = name; self.o = make(name); self.ev = []
+        self.name = name; self.o = make(name); self.ev = []; self.kept = []
         self.isblake = ALGS[name]['k'] == 'blake'
     def bitcnt(self):
         try: return limbs(int(self.o.padmethod.bitcnt), 8)
@@ -64,7 +64,7 @@ class Rec:
                 r = self.o(m, salt, bitlen) if (bitlen is not None or salt) else self.o(m)
             else:
                 r = self.o(m, bitlen) if bitlen is not None else self.o(m)
-            e['out'] = obs_out(r)
+            e['out'] = obs_out(r); self.kept.append((e, r))
         except Exception as ex: e['raised'] = type(ex).__name__
         e['bitcnt'] = self.bitcnt()
         self.ev.append(e); return e
@@ -82,6 +82,9 @@ class Rec:
         self.o.padmethod.bitcnt = v
         e = dict(op='preset', cnt=limbs(v, 8)); self.ev.append(e); return e
     def trace(self, scen=None):
+        # a returned digest is a VALUE: it must still read the same after all later calls on the object (no shared output buffer)
+        for e, r in self.kept:
+            if not e['raised'] and obs_out(r) != e['out']: e['raised'] = 'ResultChangedByLaterCall'
         return dict(alg=ALGS[self.name], name=self.name, ev=self.ev, scen=scen)
 
 def content(rnd, n, cls):
